@@ -46,8 +46,10 @@ Proof. apply (proj1 (Hok p s)). Qed.
 
 Lemma F_is_reg s : is_reg (F s) = is_reg s.
 Proof. unfold is_reg. rewrite F_is_dir, F_special, F_symlink. reflexivity. Qed.
+Lemma F_is_node s : is_node (F s) = is_node s.
+Proof. unfold is_node. rewrite F_is_dir, F_symlink. reflexivity. Qed.
 Lemma F_is_hardlink s : is_hardlink (F s) = is_hardlink s.
-Proof. unfold is_hardlink. rewrite F_is_reg, F_linkname. reflexivity. Qed.
+Proof. unfold is_hardlink. rewrite F_is_node, F_linkname. reflexivity. Qed.
 Lemma F_wants_content s : wants_content (F s) = wants_content s.
 Proof. unfold wants_content. rewrite F_is_reg, F_linkname. reflexivity. Qed.
 
@@ -181,9 +183,9 @@ Lemma links_ok_filter B : links_ok B -> links_ok (filter_entries wf B).
 Proof.
   intros HL sb bb Hin Hl. unfold filter_entries in Hin. apply in_map_iff in Hin.
   destruct Hin as ([sb0 bb0] & E & Hin0). cbn [fst snd] in E. inversion E; subst sb bb. clear E.
-  rewrite F_is_hardlink in Hl. destruct (HL sb0 bb0 Hin0 Hl) as (st & bt & Ht & Ep & Hlt & Hr & Eb).
+  rewrite F_is_hardlink in Hl. destruct (HL sb0 bb0 Hin0 Hl) as (st & bt & Ht & Ep & Hlt & Hr & Hrr & Eb).
   exists (F st), bt. split; [unfold filter_entries; apply in_map_iff; exists (st, bt); auto|].
-  rewrite !F_path, F_linkname, F_is_reg. auto.
+  rewrite !F_path, F_linkname, F_is_node, !F_is_reg. auto.
 Qed.
 
 (* ---------------------------------------------------------------- the reduction *)
